@@ -17,11 +17,21 @@ theorem pr_head (p : Policy) : ∀ (e : Ex) (x : List Tok), headIsCls (pr p e ++
   | .un y, x => by simp [pr, headIsCls]
   | .node k args, x => by simp [pr, headIsCls]
   | .bin l o r, x => by
-    cases hb : p.dropL o l with
-    | false => simp [pr, wrap, hb, headIsCls]
-    | true =>
-      have := pr_head p l (Tok.op o :: (wrap (p.dropR o r) (pr p r) ++ x))
-      simpa [pr, wrap, hb, List.append_assoc] using this
+    have key : ∀ tail : List Tok,
+        headIsCls (wrap (p.dropL o l) (pr p l) ++ Tok.op o :: tail ++ x) = false := by
+      intro tail
+      cases hb : p.dropL o l with
+      | false => simp [wrap, headIsCls]
+      | true =>
+        have := pr_head p l (Tok.op o :: tail ++ x)
+        simpa [wrap, List.append_assoc] using this
+    cases hmp : mixParts p o r with
+    | none => rw [pr_bin_reg hmp]; exact key _
+    | some q =>
+      obtain ⟨a, s, b⟩ := q
+      obtain ⟨hm, hr⟩ := mixParts_some hmp
+      subst hr
+      rw [pr_bin_mix hm]; exact key _
 
 /-- statement of the main lemma for one expression: if continuing after `e` as a left operand
 gives `res`, then parsing `e`'s printed form followed by the same rest gives `res` -/
@@ -104,7 +114,7 @@ theorem stopsAt_child_un {t : Tbl} {p : Policy} {y : Ex} {rest : List Tok}
 
 /-- the regular (non-mixfix) reading of a binary node: facts about what may follow it -/
 theorem stopsAt_bin_reg {t : Tbl} {p : Policy} {l r : Ex} {o : Nat} {rest : List Tok}
-    (hmp : mixParts t p o r = none) (h : StopsAt t p (.bin l o r) rest) :
+    (hmp : mixParts p o r = none) (h : StopsAt t p (.bin l o r) rest) :
     (∀ q tl, rest = Tok.op q :: tl → (t.infx q = true → t.lbp q < t.rbp o)) ∧
     (∀ q tl, rest = Tok.op q :: tl → t.mix o ≠ some q) ∧
     (p.dropR o r = true → StopsAt t p r rest) := by
@@ -125,9 +135,9 @@ theorem stopsAt_bin_reg {t : Tbl} {p : Policy} {l r : Ex} {o : Nat} {rest : List
     | binMix _ _ _ a s b hm _ _ => rw [hmp] at hm; cases hm
 
 theorem stopsAt_bin_mix {t : Tbl} {p : Policy} {l r a b : Ex} {o s : Nat} {rest : List Tok}
-    (hmp : mixParts t p o r = some (a, s, b)) (h : StopsAt t p (.bin l o r) rest) :
+    (hmp : mixParts p o r = some (a, s, b)) (h : StopsAt t p (.bin l o r) rest) :
     (∀ q tl, rest = Tok.op q :: tl → (t.infx q = true → t.lbp q < t.rbp2 o)) ∧
-    (p.dropR s b = true → StopsAt t p b rest) := by
+    (p.dropMR o b = true → StopsAt t p b rest) := by
   refine ⟨?_, ?_⟩
   · intro q tl e; subst e
     cases h with
